@@ -21,6 +21,7 @@ def oracle(case, impl_lines, model_lines):
     hist = st.hist_of(case)
     hm = int(re.search(r"\(hashmod (\d+)\)", case).group(1))
     last = {}          # creator key -> (step, {cname: id}, execs since)
+    unwound_orphans = set()
     execs = {}
     for i, op in enumerate(hist):
         s_txt = a["S"].get(i)
@@ -42,9 +43,16 @@ def oracle(case, impl_lines, model_lines):
                     return dict(level="oracle", step=i, why=f"memo {k} lists {h} but the slot is on the free list")
         # (5) no orphan: every live slot is listed by some stored memo (a struct that no execution
         #     re-created must have been discarded) -- only when the step completed without a panic
-        if not a["R"].get(i, "").startswith("panic"):
-            for ix, sl in sv["slots"].items():
-                if sl["live"] and ix not in seen:
+        orphans = {ix for ix, sl in sv["slots"].items() if sl["live"] and ix not in seen}
+        if a["R"].get(i, "").startswith("panic"):
+            # an execution that unwinds drops its id map: the structs it had created stay
+            # allocated without an owner (C06 quantifies over completed executions); such slots
+            # are exempt for as long as they stay orphaned
+            unwound_orphans |= orphans
+        else:
+            unwound_orphans &= orphans
+            for ix in sorted(orphans - unwound_orphans):
+                if True:
                     return dict(level="oracle", step=i,
                                 why=f"slot {ix} is live (enumerated by entries()) but no stored memo lists it: "
                                     "a struct that its creator no longer creates was not discarded")
